@@ -981,6 +981,14 @@ func (o *ovsdbClient) monitor(ctx context.Context, cookie MonitorCookie, reconne
 	var err error
 	var tableUpdates interface{}
 
+	// the updates that arrive from now on can be ahead of the reply to this
+	// request: hold them back until the reply has been applied to the cache,
+	// also when this is not the first monitor
+	db.cacheMutex.Lock()
+	wasDeferringUpdates := db.deferUpdates
+	db.deferUpdates = true
+	db.cacheMutex.Unlock()
+
 	var lastTransactionFound bool
 	switch monitor.Method {
 	case ovsdb.MonitorRPC:
@@ -1005,6 +1013,22 @@ func (o *ovsdbClient) monitor(ctx context.Context, cookie MonitorCookie, reconne
 	verifPause(o, "monitor:reply")
 
 	if err != nil {
+		if !wasDeferringUpdates {
+			// no reply to wait for: apply what was held back for the
+			// monitors that are already in place
+			db.cacheMutex.Lock()
+			db.deferUpdates = false
+			for _, update := range db.deferredUpdates {
+				if update.updates != nil {
+					_ = db.cache.Populate(*update.updates)
+				}
+				if update.updates2 != nil {
+					_ = db.cache.Populate2(*update.updates2)
+				}
+			}
+			db.deferredUpdates = make([]*bufferedUpdate, 0)
+			db.cacheMutex.Unlock()
+		}
 		if err == rpc2.ErrShutdown {
 			return ErrNotConnected
 		}
